@@ -61,8 +61,83 @@ static void run_stepping(const Circuit &c, uint64_t seed, std::string &rec, std:
     if (cppkinds.empty()) cppkinds = "-";
 }
 
+// API operations beyond do_gate: postselect_observable / measure_pauli_string / peek_observable_expectation after the circuit.
+// A successful postselection of the signed observable P to the value b acts like a measurement of P whose outcome was b:
+// the record  <circuit's record> ++ [b] ++ [what measure_pauli_string(P) then returns] ++ [final Z measurements]  must be a possible
+// record of  circuit ; MPP P ; MPP P ; M all .  A refused postselection must leave the state unchanged with P fixed to the other value.
+template <size_t W>
+static void postselect_case(const Circuit &big, const Circuit &comp, const std::map<uint32_t, uint32_t> &to_compact, Rng &rng, Stats &st) {
+    size_t nq = big.count_qubits();
+    if (nq == 0 || to_compact.empty()) return;
+    std::vector<uint32_t> used;
+    for (auto &kv : to_compact) used.push_back(kv.first);
+    TableauSimulator<W> sim(std::mt19937_64(rng.next()), nq);
+    sim.safe_do_circuit(big);
+    std::vector<bool> rec(sim.measurement_record.storage.begin(), sim.measurement_record.storage.end());
+    Circuit tail;   // in compact ids, appended to `comp` for the Lean model
+    for (int round = 0; round < 2; round++) {
+        // a random signed Pauli product on 1..3 of the used qubits
+        std::set<uint32_t> qs;
+        size_t weight = 1 + rng.below(3);
+        while (qs.size() < std::min(weight, used.size())) qs.insert(used[rng.below(used.size())]);
+        PauliString<W> obs(nq);
+        std::vector<GateTarget> prod;
+        bool sign = rng.chance(0.5);
+        bool first = true;
+        for (uint32_t q : qs) {
+            int l = 1 + (int)rng.below(3);
+            obs.xs[q] = l == 1 || l == 2;
+            obs.zs[q] = l == 2 || l == 3;
+            uint32_t cq = to_compact.at(q);
+            if (!first) prod.push_back(GateTarget::combiner());
+            prod.push_back(l == 1 ? GateTarget::x(cq, first && sign) : l == 2 ? GateTarget::y(cq, first && sign) : GateTarget::z(cq, first && sign));
+            first = false;
+        }
+        obs.sign = sign;
+        bool desired = rng.chance(0.5);
+        int8_t before = sim.peek_observable_expectation(obs);
+        bool ok = true;
+        try {
+            sim.postselect_observable(obs.ref(), desired);
+        } catch (const std::invalid_argument &) {
+            ok = false;
+        }
+        if (ok) {
+            if (before != 0 && (before == -1) != desired) out_x("postselect_observable accepted a value the state excludes: " + obs.str());
+            bool m = sim.measure_pauli_string(obs.ref(), 0.0);
+            tail.safe_append(CircuitInstruction(GateType::MPP, {}, prod, ""));
+            tail.safe_append(CircuitInstruction(GateType::MPP, {}, prod, ""), true);
+            rec.push_back(desired);
+            rec.push_back(m);
+            if (sim.peek_observable_expectation(obs) != (desired ? -1 : +1)) out_x("after postselect_observable(" + obs.str() + ", " + (desired ? "1" : "0") + ") the expectation is not fixed to that value");
+            st.hit("postselect.accepted");
+        } else {
+            if (before == 0 || (before == -1) == desired) out_x("postselect_observable refused a value the state allows: " + obs.str());
+            bool m = sim.measure_pauli_string(obs.ref(), 0.0);
+            if (m == desired) out_x("a refused postselection changed the state: " + obs.str());
+            tail.safe_append(CircuitInstruction(GateType::MPP, {}, prod, ""), true);
+            rec.push_back(m);
+            st.hit("postselect.refused");
+        }
+    }
+    // final Z measurements of every used qubit
+    std::vector<uint32_t> all_big, all_comp;
+    for (auto &kv : to_compact) { all_big.push_back(kv.first); all_comp.push_back(kv.second); }
+    Circuit fin;
+    fin.safe_append_u("M", all_big);
+    size_t before_fin = sim.measurement_record.storage.size();
+    sim.safe_do_circuit(fin);
+    tail.safe_append_u("M", all_comp);
+    for (size_t i = before_fin; i < sim.measurement_record.storage.size(); i++) rec.push_back(sim.measurement_record.storage[i]);
+    // (measure_pauli_string recorded its results too: the simulator's record is  circuit ++ measured products ++ finals; ours
+    //  additionally holds the virtual result of every accepted postselection)
+    Circuit whole = comp + tail;
+    out_q("tsim check " + wire_circuit(whole) + " " + bits_str(rec) + " -", "ok");
+}
+
 static void check_circuit(const Circuit &big, uint64_t k, Rng &rng, Stats &st) {
-    Circuit c = compact_circuit(big);
+    std::map<uint32_t, uint32_t> to_compact;
+    Circuit c = compact_circuit(big, &to_compact);
     std::string w = wire_circuit(c);
     if (c.count_measurements() > 0) st.hit("circuits.with_measurements");
     try {
@@ -127,6 +202,10 @@ static void check_circuit(const Circuit &big, uint64_t k, Rng &rng, Stats &st) {
         if (!problems.empty()) out_x("query family inconsistent:" + problems);
         out_q("tsim check " + w + " " + rec + " " + kinds, "ok");
         for (char ch : kinds) st.hit(ch == 'D' ? "meas.queried_forced" : ch == 'F' ? "meas.queried_free" : "meas.unqueried");
+        // postselection / Pauli-product measurement through the API, one word width per case
+        if (k % 3 == 0) postselect_case<64>(big, c, to_compact, rng, st);
+        else if (k % 3 == 1) postselect_case<128>(big, c, to_compact, rng, st);
+        else postselect_case<256>(big, c, to_compact, rng, st);
     } catch (const std::exception &e) {
         // generated circuits are valid: any exception is unexpected (Lean confirms whether the circuit is valid)
         out_q("tsim ref " + w + " 0", std::string("exception ") + esc_line(e.what()));
